@@ -90,6 +90,9 @@ static int drv_getc(void *arg)
 
 /* ------------------------------------------------------------------ trees */
 static const char *unsound;   /* first broken link seen while printing */
+static size_t vals_str, vals_vec;   /* values printed: with / without the plain string conversion (inline / buffer-backed) */
+static char last_stat[200] = "-";  /* observables of the last parse, printed by `p stat` */
+static int refused;                 /* the recording handler refused a call */
 static void put_tree(const MPT_STRUCT(node) *n, const MPT_STRUCT(node) *parent, int depth);
 static void put_forest(const MPT_STRUCT(node) *first, const MPT_STRUCT(node) *parent, int depth)
 {
@@ -128,7 +131,8 @@ static void put_tree(const MPT_STRUCT(node) *n, const MPT_STRUCT(node) *parent, 
 			/* the plain string conversion has to agree up to the first zero byte */
 			const char *s = 0;
 			/* (long text is buffer-backed and only offers the vector form) */
-			if (conv->_vptr->convert(conv, 's', &s) < 0 || !s) { }
+			if (conv->_vptr->convert(conv, 's', &s) < 0 || !s) { ++vals_vec; }
+			else if (++vals_str, 0) { }
 			else if (strlen(s) != strnlen((const char *) b, len) || memcmp(s, b, strlen(s))) ob_s("?strdiff");
 		}
 	}
@@ -201,7 +205,7 @@ static int record(void *ctx, const MPT_STRUCT(path) *p, const MPT_STRUCT(value) 
 	struct event *e;
 	(void) ctx; (void) last;
 	if (!curr) return 0;   /* "new file" notification of mpt_parse_folder */
-	if (fail_at >= 0 && (long) nev == fail_at) return -1;   /* refused elements are not recorded */
+	if (fail_at >= 0 && (long) nev == fail_at) { refused = 1; return -1; }   /* refused elements are not recorded */
 	if (nev == capev) { capev = capev ? capev * 2 : 64; evs = realloc(evs, capev * sizeof(*evs)); }
 	e = &evs[nev];
 	e->kind = curr;
@@ -483,13 +487,18 @@ int main(void)
 			}
 			setup_ctx(&ctx);
 			type = mpt_parse_format(&pf, fmt_str);
-			if (!(next = mpt_parse_next_fcn(type))) { printf("R err nest=- vals=ok | C . | I code=-3 line=1 getc=0 used=0 curr=0\n"); continue; }
+			if (!(next = mpt_parse_next_fcn(type))) {
+				snprintf(last_stat, sizeof(last_stat), "code=-3 line=1 getc=0 used=0");
+				printf("R err nest=- vals=ok refused=no | C . | I code=-3 line=1 getc=0 used=0 curr=0\n"); continue;
+			}
 			clear_events();
-			vals_bad = 0;
+			vals_bad = 0; refused = 0;
 			ret = mpt_parse_config(next, &pf, &ctx, record, 0);
 			ob_reset(); put_events();
-			printf("R %s nest=%s vals=%s | C %s", ret < 0 ? "err" : "ok", ret < 0 ? "-" : nest_verdict(), vals_bad ? vals_bad : "ok", ob);
+			printf("R %s nest=%s vals=%s refused=%s | C %s", ret < 0 ? "err" : "ok", ret < 0 ? "-" : nest_verdict(), vals_bad ? vals_bad : "ok",
+			       refused ? "yes" : "no", ob);
 			put_internals(ret, &ctx);
+			snprintf(last_stat, sizeof(last_stat), "code=%d line=%zu getc=%zu used=%zu", ret, ctx.src.line, getc_calls, input_pos);
 			clear_events();
 		}
 		else if (!strcmp(op, "node") && drv_nw == 2) {
@@ -522,9 +531,11 @@ int main(void)
 				clear_events();
 				getc_calls = calls; input_pos = used;
 			}
-			ob_reset(); unsound = 0; put_forest(root.children, &root, 0);
+			ob_reset(); unsound = 0; vals_str = vals_vec = 0; put_forest(root.children, &root, 0);
 			printf("R %s sound=%s names=%s | C %s", ret < 0 ? "err" : "ok", unsound ? unsound : "ok", names, ob);
 			put_internals(ret, &ctx);
+			snprintf(last_stat, sizeof(last_stat), "code=%d line=%zu getc=%zu used=%zu inline=%zu buffer=%zu", ret, ctx.src.line,
+			         getc_calls, input_pos, vals_str, vals_vec);
 		}
 		else if (!strcmp(op, "expect") && drv_nw == 3) {
 			/* the tree the next `p node` has to deliver (spec side only) */
@@ -550,6 +561,11 @@ int main(void)
 			free(limits);
 			ob_reset(); unsound = 0; put_forest(root.children, &root, 0);
 			printf("R %s sound=%s | C %s | I code=%d\n", ret < 0 ? "err" : "ok", unsound ? unsound : "ok", ob, ret);
+			snprintf(last_stat, sizeof(last_stat), "code=%d", ret);
+		}
+		else if (!strcmp(op, "stat") && drv_nw == 2) {
+			/* observables of the last parse that the spec column does not speak about: compared with the model */
+			printf("R ok | C %s\n", last_stat);
 		}
 		else if (!strcmp(op, "folder") && drv_nw == 2) {
 			/* mpt_parse_folder over a directory that holds the input as its only file */
@@ -571,6 +587,7 @@ int main(void)
 			ob_reset(); put_events();
 			printf("R %s nest=%s vals=%s | C %s | I code=%d\n", ret < 0 ? "err" : "ok", ret < 0 ? "-" : nest_verdict(),
 			       vals_bad ? vals_bad : "ok", ob, ret);
+			snprintf(last_stat, sizeof(last_stat), "code=%d", ret);
 			clear_events();
 		}
 		else if (!strcmp(op, "end") && drv_nw == 2) {
@@ -580,6 +597,7 @@ int main(void)
 			free(fmt_str); fmt_str = 0;
 			name_sect = name_opt = 0xff;
 			clear_events();
+			strcpy(last_stat, "-");
 			now = __sanitizer_get_current_allocated_bytes();
 			if (now != base_bytes && __lsan_do_recoverable_leak_check()) {
 				printf("FAULT leak bytes=%ld\n", (long) now - (long) base_bytes);
